@@ -13,6 +13,7 @@ semantics-preserving rewritings bring both to the same form before the skeleton 
 The rewritten body is used for reading skeletons only; every other rule sees the body as extracted.
 """
 import copy
+import json
 
 from .core import Fn
 from .flowvp import Reach
@@ -131,6 +132,10 @@ def split_webs(prog, fn):
                 # `d = discriminant(T); switch(d)`: T is what was threaded
                 if s0["k"] == "assign" and s0["rv"]["k"] == "discriminant" and not s0["rv"]["place"]["proj"]:
                     ls.append(s0["rv"]["place"]["local"])
+                # `t = copy named; switch(t)`: the named boolean is what was threaded
+                if s0["k"] == "assign" and s0["rv"]["k"] == "use" and s0["rv"]["op"].get("k") in ("copy", "move") and not s0["rv"]["op"]["place"]["proj"] \
+                        and not s0["place"]["proj"] and s0["place"]["local"] in ls:
+                    ls.append(s0["rv"]["op"]["place"]["local"])
             for l in ls:
                 if l in r.multi:
                     dids = sorted(r.defs_of(l), key=str)
@@ -510,6 +515,47 @@ def _retarget_term(t, m):
             t["target"] = m.get(t["target"], t["target"])
 
 
+def merge_return_tails(prog, fn):
+    """several `return x` of the same variable (`if .. { return position }` at two places of a loop) are one return site:
+    blocks that only assign the return place, identically, and go to the same block are merged"""
+    j = fn.j
+    blocks = j["body"]["blocks"]
+    cfg = fn.cfg
+
+    def sig(bi):
+        b = blocks[bi]
+        if b["cleanup"] or bi not in cfg.reach or not b["stmts"]:
+            return None
+        out = []
+        for s in b["stmts"]:
+            if s["k"] != "assign" or s["place"]["local"] != 0 or s["place"]["proj"]:
+                return None
+            out.append(json.dumps({k: v for k, v in s.items() if k not in ("span", "inlined_return", "inlined_arg")}, sort_keys=True))
+        t = b["term"]
+        if t["k"] == "return":
+            tail = "return"
+        elif t["k"] == "goto" and blocks[t["target"]]["term"]["k"] == "return" and not blocks[t["target"]]["stmts"]:
+            tail = "goto-return"
+        else:
+            return None
+        return (tuple(out), tail)
+    groups = {}
+    for bi in sorted(cfg.reach):
+        sg = sig(bi)
+        if sg is not None:
+            groups.setdefault(sg, []).append(bi)
+    m = {}
+    for sg, bs in groups.items():
+        for b2 in bs[1:]:
+            m[b2] = bs[0]
+    if not m:
+        return fn, 0
+    for bi, b in enumerate(blocks):
+        if bi in cfg.reach and not b["cleanup"]:
+            _retarget_term(b["term"], m)
+    return _rebuild(prog, fn, j), len(m)
+
+
 def rotate_loops(prog, fn):
     """`loop { A; if c { break }; B }` (exit test in the middle, nothing leaves the loop before it) becomes
     `A'; if !c' { loop { B; A; if c { break } } }`: the part of the body in front of the exit test, and the test, are
@@ -575,6 +621,9 @@ def normalise(prog, fn):
     g = Fn(prog, j)
     g.normalised_from = fn
     rep = []
+    g, m0 = merge_return_tails(prog, g)
+    if m0:
+        rep.append("return sites merged %d" % m0)
     g, r0 = rotate_loops(prog, g)
     if r0:
         rep.append("loops rotated %d" % r0)
